@@ -6,7 +6,7 @@ CONSTANTS
   Incs = {1, 3}
   Mfs = {2, 4}
   MaxOps = 2
-  Defects = {"NoSettingsAdjust"}
+  Defects = {"FrameSizeAtBodyStart"}
 SPECIFICATION Spec
 INVARIANTS StreamWindow ConnWindow FrameSize NoOverrun Delivered
 CHECK_DEADLOCK FALSE
